@@ -457,6 +457,172 @@ theorem backfill_nothing_served (st : Store) (ec tc : Nat) (s : List Char) :
         | cons x xs ih => simp [List.filter, ih]
       simp [hf]
 
+/-! ## what a *successful* answer commits to (error paths in the middle of a scan / a batch) -/
+
+private theorem decodeAll_none_of_mem : ∀ (l : List (Key × Bytes)) (e : Key × Bytes), e ∈ l → unmarshal e.2 = none → decodeAll l = none := by
+  intro l
+  induction l with
+  | nil => intro e he; cases he
+  | cons x xs ih =>
+    intro e he hu
+    unfold decodeAll
+    rcases List.mem_cons.1 he with rfl | h
+    · rw [hu]
+    · cases unmarshal x.2 with
+      | none => rfl
+      | some v => simp [ih e h hu]
+
+private theorem decodeAll_some_all : ∀ (l : List (Key × Bytes)) (vs : List Vaa), decodeAll l = some vs → ∀ e ∈ l, (unmarshal e.2).isSome := by
+  intro l vs h e he
+  cases hu : unmarshal e.2 with
+  | some _ => rfl
+  | none => rw [decodeAll_none_of_mem l e he hu] at h; cases h
+
+/-- A stored value of the scanned stream that `vaa.Unmarshal` rejects (an empty payload, a version other than 1) makes the gap
+query fail as a whole: the pinned code makes no statement about such a stream - in particular no wrong one. -/
+theorem gap_err_of_undecodable (st : Store) (ec : Nat) (addr : Bytes) (tc : Nat) (e : Key × Bytes)
+    (he : e ∈ st.scan (gapPrefix ec addr tc)) (hu : unmarshal e.2 = none) : findGap st ec addr tc = .err := by
+  unfold findGap
+  rw [decodeAll_none_of_mem _ e he hu]
+
+/-- Conversely a gap query that answers has decoded EVERY stored value of the stream (so none was skipped: the sequences it
+reports on are those of all the scanned records). -/
+theorem gap_ok_all_decode (st : Store) (ec : Nat) (addr : Bytes) (tc : Nat) (m : List Nat) (f l : Nat)
+    (h : findGap st ec addr tc = .ok m f l) :
+    (∀ e ∈ st.scan (gapPrefix ec addr tc), (unmarshal e.2).isSome) ∧
+    ∃ vs, decodeAll (st.scan (gapPrefix ec addr tc)) = some vs ∧ vs.length = (st.scan (gapPrefix ec addr tc)).length ∧
+      GapRes.ok m f l = specGap (vs.map (·.body.sequence)) := by
+  unfold findGap at h
+  cases hd : decodeAll (st.scan (gapPrefix ec addr tc)) with
+  | none => rw [hd] at h; cases h
+  | some vs =>
+    rw [hd] at h
+    refine ⟨decodeAll_some_all _ vs hd, vs, rfl, ?_, ?_⟩
+    · clear h
+      generalize st.scan (gapPrefix ec addr tc) = sc at hd
+      induction sc generalizing vs with
+      | nil => unfold decodeAll at hd; cases hd; rfl
+      | cons x xs ih =>
+        unfold decodeAll at hd
+        cases hx : unmarshal x.2 with
+        | none => rw [hx] at hd; cases hd
+        | some v =>
+          rw [hx] at hd
+          cases hr : decodeAll xs with
+          | none => rw [hr] at hd; cases hd
+          | some ws =>
+            rw [hr] at hd
+            cases hd
+            simp [ih ws hr]
+    · have h' : gapOfSeqs (vs.map (·.body.sequence)) = .ok m f l := h
+      rw [← h', gapOfSeqs_eq_specGap]
+
+/-- **A backfill call that succeeds reports every missing sequence nobody served.** If the loop over the missing ids ends
+with a report (`some r`), no node failed for any id, every served byte string was forwarded, and the report is exactly the
+ids that were not served - none of them can have vanished. Contrapositive: a node failing for one id in the middle of a batch
+fails the call (`backfill_failure_aborts`). -/
+theorem backfill_ok_reports_every_unserved (answer : Nat → NodeAnswer) :
+    ∀ (ids : List Nat) (fwd : List Bytes) (unf : List Nat) (f : List Bytes) (r : List Nat),
+      backfillLoop answer ids fwd unf = (f, some r) →
+        (∀ i ∈ ids, answer i ≠ .failed) ∧
+        r = unf ++ ids.filter (fun i => match answer i with | .served _ => false | _ => true) ∧
+        f = fwd ++ ids.filterMap (fun i => match answer i with | .served b => some b | _ => none) := by
+  intro ids
+  induction ids with
+  | nil =>
+    intro fwd unf f r h
+    simp [backfillLoop] at h
+    obtain ⟨rfl, rfl⟩ := h
+    simp
+  | cons i rest ih =>
+    intro fwd unf f r h
+    unfold backfillLoop at h
+    cases ha : answer i with
+    | served b =>
+      rw [ha] at h
+      obtain ⟨h1, h2, h3⟩ := ih _ _ _ _ h
+      refine ⟨?_, ?_, ?_⟩
+      · intro j hj
+        rcases List.mem_cons.1 hj with rfl | hj
+        · rw [ha]; intro hc; cases hc
+        · exact h1 j hj
+      · rw [h2]; simp [List.filter, ha]
+      · rw [h3]; simp [List.filterMap, ha]
+    | absent =>
+      rw [ha] at h
+      obtain ⟨h1, h2, h3⟩ := ih _ _ _ _ h
+      refine ⟨?_, ?_, ?_⟩
+      · intro j hj
+        rcases List.mem_cons.1 hj with rfl | hj
+        · rw [ha]; intro hc; cases hc
+        · exact h1 j hj
+      · rw [h2]; simp [List.filter, ha]
+      · rw [h3]; simp [List.filterMap, ha]
+    | failed =>
+      rw [ha] at h
+      cases h
+
+/-- A node answering with a status other than 200 / 404 for one of the ids fails the whole call: no report is given (and what
+was served for the ids before it has been forwarded). -/
+theorem backfill_failure_aborts (answer : Nat → NodeAnswer) (ids : List Nat) (fwd : List Bytes) (unf : List Nat)
+    (h : ∃ i ∈ ids, answer i = .failed) : (backfillLoop answer ids fwd unf).2 = none := by
+  cases hl : backfillLoop answer ids fwd unf with
+  | mk f r =>
+    cases r with
+    | none => rfl
+    | some r =>
+      obtain ⟨i, hi, hf⟩ := h
+      exact absurd hf ((backfill_ok_reports_every_unserved answer ids fwd unf f r hl).1 i hi)
+
+/-- The same at the level of the admin call: whenever `FindMissingMessages` with backfill answers, its report lists (as message
+ids) exactly the sequences `FindEmitterSequenceGap` found missing that no node served. -/
+theorem fmm_backfill_ok_report (st : Store) (ec tc : Nat) (s : List Char) (answer : Nat → NodeAnswer) (rep : FmmRes)
+    (h : (findMissingBackfill st ec s tc answer).result = .ok rep) :
+    ∃ a ids f l, unhexChars s = some a ∧ findGap st (ec % 65536) (copyTo32 a) (tc % 65536) = .ok ids f l ∧
+      (∀ i ∈ ids, answer i ≠ .failed) ∧ rep.first = f ∧ rep.last = l ∧
+      rep.missing = (ids.filter (fun i => match answer i with | .served _ => false | _ => true)).map fun v =>
+        decChars ec ++ ('/' :: (hexChars (copyTo32 a) ++ ('/' :: (decChars tc ++ ('/' :: decChars v))))) := by
+  unfold findMissingBackfill at h
+  cases hs : unhexChars s with
+  | none => rw [hs] at h; cases h
+  | some a =>
+    rw [hs] at h
+    simp only at h
+    cases hg : findGap st (ec % 65536) (copyTo32 a) (tc % 65536) with
+    | err => rw [hg] at h; cases h
+    | ok ids f l =>
+      rw [hg] at h
+      simp only at h
+      cases hl : backfillLoop answer ids [] [] with
+      | mk fw r =>
+        rw [hl] at h
+        cases r with
+        | none => cases h
+        | some r =>
+          obtain ⟨h1, h2, _⟩ := backfill_ok_reports_every_unserved answer ids [] [] fw r hl
+          simp only at h
+          cases h
+          exact ⟨a, ids, f, l, rfl, hg, h1, rfl, rfl, by rw [h2]; simp⟩
+
+/-- The batch lookup entry by entry: every entry carries the bytes stored last under the identifier it names (never bytes of
+another identifier, never bytes for an identifier nothing was stored under), and every requested stored identifier has an entry. -/
+theorem rpc_batch_entrywise (h : List Put) (hok : ∀ p ∈ h, IdOK p.1) (ec tc : Nat) (hec : ec < 65536) (htc : tc < 65536)
+    (s : List Char) (a : Bytes) (hs : unhexChars s = some a) (ha : a.length = 32) (seqs : List Nat) (hn : seqs.length ≤ 20) :
+    ∃ out, rpcNonGovBatch (run h) ec s tc seqs = .ok out ∧
+      (∀ e ∈ out, e.1 ∈ seqs ∧ lastStored h ⟨ec, a, tc, e.1⟩ = some e.2) ∧
+      (∀ q ∈ seqs, ∀ b, lastStored h ⟨ec, a, tc, q⟩ = some b → (q, b) ∈ out) := by
+  refine ⟨_, rpc_batch_exact h hok ec tc hec htc s a hs ha seqs hn, ?_, ?_⟩
+  · intro e he
+    obtain ⟨q, hq, hm⟩ := List.mem_filterMap.1 he
+    cases hl : lastStored h ⟨ec, a, tc, q⟩ with
+    | none => rw [hl] at hm; cases hm
+    | some b =>
+      rw [hl] at hm
+      cases hm
+      exact ⟨hq, hl⟩
+  · intro q hq b hb
+    exact List.mem_filterMap.2 ⟨q, hq, by rw [hb]; rfl⟩
+
 /-! ## non-vacuity: a concrete store with look-alike target chains 2 / 25 and an overwrite -/
 
 private def mk (tc seq : Nat) (pl : Bytes) : Vaa :=
@@ -489,5 +655,23 @@ example : findGap (run (putsOf hist)) 13 addrA 2 = findGap (run (putsOf [mk 2 0 
   gap_unaffected _ _ (by decide) (by decide) ⟨13, addrA, 2⟩ (by decide) (by decide)
 example : backfillLoop (fun i => if i = 1 then .served [9, 9] else .absent) [1, 2] [] [] = ([[9, 9]], some [2]) := by decide
 example : backfillLoop (fun i => if i = 1 then .served [9, 9] else .failed) [1, 2, 3] [] [] = ([[9, 9]], none) := by decide
+-- a node failing for the middle one of three missing ids: no report; failing for none: ids 2 and 3 (declined) are both reported
+example : ∃ i ∈ [1, 2, 3], (fun i => if i = 2 then NodeAnswer.failed else .absent) i = .failed := ⟨2, by decide, rfl⟩
+example : backfillLoop (fun i => if i = 1 then .served [9, 9] else .absent) [1, 2, 3] [] [] = ([[9, 9]], some [2, 3]) := by decide
+-- a stream whose highest sequence (3) is an empty-payload VAA: Marshal writes it, Unmarshal rejects it, the gap query fails
+private def emptyTop : List Put := putsOf [mk 2 0 [1], mk 2 3 []]
+set_option maxRecDepth 100000 in
+private theorem emptyTop_undecodable : unmarshal (marshal (mk 2 3 [])) = none := by decide
+private theorem emptyTop_scanned : (key ⟨13, addrA, 2, 3⟩, marshal (mk 2 3 [])) ∈ (run emptyTop).scan (gapPrefix 13 addrA 2) :=
+  mem_scan.2 ⟨(mem_run emptyTop (by decide) _ _).2 ⟨⟨13, addrA, 2, 3⟩, by decide, rfl, by decide⟩,
+    (prefix_iff_stream ⟨13, addrA, 2⟩ (by decide) _ (by decide)).2 (by decide)⟩
+example : findGap (run emptyTop) 13 addrA 2 = .err :=
+  gap_err_of_undecodable _ 13 addrA 2 (key ⟨13, addrA, 2, 3⟩, marshal (mk 2 3 [])) emptyTop_scanned emptyTop_undecodable
+example : findGap (run (putsOf hist)) 13 addrA 2 = .ok [1, 2] 0 3 := by
+  rw [gap_spec hist (by decide) ⟨13, addrA, 2⟩ (by decide)]; decide
+example : ∃ out, rpcNonGovBatch (run (putsOf hist)) ((13 : Nat) : Int) (hexChars addrA) ((2 : Nat) : Int) [3, 1, 0] = .ok out ∧
+    (∀ e ∈ out, e.1 ∈ [3, 1, 0] ∧ lastStored (putsOf hist) ⟨13, addrA, 2, e.1⟩ = some e.2) ∧
+    (∀ q ∈ [3, 1, 0], ∀ b, lastStored (putsOf hist) ⟨13, addrA, 2, q⟩ = some b → (q, b) ∈ out) :=
+  rpc_batch_entrywise _ (by decide) 13 2 (by decide) (by decide) _ addrA (unhexChars_hexChars _) (by decide) [3, 1, 0] (by decide)
 
 end Whv.C12
